@@ -9,3 +9,15 @@ package http
 //@   ensures  query: query == QueryOnly(fullPath)
 //@   ensures  fragment: fragment == FragOnly(fullPath)
 //@   ensures  recompose: fullPath == path ++ ite(HasQuery(fullPath), "?" ++ query, "") ++ ite(IndexOf(fullPath, "#") >= 0, "#" ++ fragment, "")
+
+// The cookie header is split at ';' into Name=Value pairs (trimmed; anything that is not exactly
+// Name=Value is skipped; a later pair overrides an earlier one of the same name). The result is
+// described by the abstract decoding CookieHas/CookieGet; the body is not verified (strings.Split
+// and strings.TrimSpace are not modelled) — listed as an assumed contract.
+//@ func DecodeCookiesHeader
+//@   abstractbody
+//@   ensures  fresh: result != nil && fresh(result)
+//@   ensures  decoded: forall name string :: mapHas(result, name) == CookieHas(headerValue, name) && (mapHas(result, name) ==> result[name] == CookieGet(headerValue, name))
+
+//@ func BasicAuthHeader
+//@   ensures  basic: result == "Basic " ++ Base64(id ++ ":" ++ secret)
